@@ -8,9 +8,26 @@ Open Scope string_scope.
 Open Scope nat_scope.
 Open Scope list_scope.
 
-Ltac kf kp pp := erewrite (kint_encoded K.xfrm_usersa_info Py.XfrmUserSaInfo kp pp) by side.
-Ltac k0 kp pp := erewrite (kint_unset K.xfrm_usersa_info Py.XfrmUserSaInfo kp pp) by side.
-Ltac kr kp pp := erewrite (kraw_encoded K.xfrm_usersa_info Py.XfrmUserSaInfo kp pp) by side.
+(** the leaves are computed first so that no side condition handed to vm_compute contains an evar *)
+Ltac with_leaves kt pt kp pp tac :=
+  let kl := eval vm_compute in (find_leaf kp (layout kt)) in
+  let pl := eval vm_compute in (find_leaf pp (layout pt)) in
+  lazymatch kl with
+  | Some ?k => lazymatch pl with Some ?p => tac k p end
+  end.
+
+Ltac kf_ kt pt kp pp :=
+  with_leaves kt pt kp pp ltac:(fun k p => erewrite (kint_encoded kt pt kp pp _ _ _ _ _ k p) by side).
+Ltac k0_ kt pt kp pp :=
+  with_leaves kt pt kp pp ltac:(fun k p => erewrite (kint_unset kt pt kp pp _ _ _ _ k p) by side).
+Ltac kr_ kt pt kp pp :=
+  with_leaves kt pt kp pp ltac:(fun k p => erewrite (kraw_encoded kt pt kp pp _ _ _ _ k p) by side).
+Ltac kb_ kt pt kp pp :=
+  with_leaves kt pt kp pp ltac:(fun k p => erewrite (kint_bytes kt pt kp pp _ _ _ _ k p) by side).
+
+Ltac kf kp pp := kf_ K.xfrm_usersa_info Py.XfrmUserSaInfo kp pp.
+Ltac k0 kp pp := k0_ K.xfrm_usersa_info Py.XfrmUserSaInfo kp pp.
+Ltac kr kp pp := kr_ K.xfrm_usersa_info Py.XfrmUserSaInfo kp pp.
 
 Lemma port_mask_value p : Z.to_N (if Z.eqb p 0 then 0 else 65535)%Z = port_mask p.
 Proof. unfold port_mask. destruct (Z.eqb p 0); reflexivity. Qed.
@@ -93,7 +110,7 @@ Section Payload.
     kf "family" "family". kf "id.proto" "id.proto". kf "mode" "mode".
     k0 "reqid" "reqid". k0 "replay_window" "replay_window". k0 "flags" "flags". k0 "seq" "seq".
     kr "id.daddr.a6" "id.daddr.addr". kr "saddr.a6" "saddr.addr".
-    erewrite (kint_bytes K.xfrm_usersa_info Py.XfrmUserSaInfo "id.spi" "id.spi") by side.
+    kb_ K.xfrm_usersa_info Py.XfrmUserSaInfo "id.spi" "id.spi".
     subst fs. cbn [lookup lf_path String.eqb Ascii.eqb Bool.eqb leaf_bytes leaf_len lf_n lf_w lf_end Nat.mul Nat.add dec].
     rewrite !addr_image by assumption. rewrite fit_exact by assumption.
     unfold wf_u8 in *.
@@ -102,3 +119,102 @@ Section Payload.
     rewrite family_value'. repeat split; reflexivity.
   Qed.
 End Payload.
+
+(** ---- attributes *)
+Lemma kint_sub t p d o l kl :
+  find_leaf p (layout t) = Some kl -> lf_off kl + lf_w kl <= l ->
+  kint t p (sub d o l) 0 = kint t p d o.
+Proof.
+  intros Hk Hl. unfold kint, kleaf. rewrite Hk. unfold leaf_int. cbn [Nat.add]. now rewrite sub_sub by lia.
+Qed.
+
+Lemma kraw_sub t p d o l kl :
+  find_leaf p (layout t) = Some kl -> lf_off kl + leaf_len kl <= l ->
+  kraw t p (sub d o l) 0 = kraw t p d o.
+Proof.
+  intros Hk Hl. unfold kraw, kleaf. rewrite Hk. cbn [Nat.add]. now rewrite sub_sub by lia.
+Qed.
+
+Lemma until_nul_name n k : Forall (fun b => b <> 0%N) n -> until_nul (n ++ repeat 0%N (S k)) = n.
+Proof.
+  induction 1 as [|b r Hb _ IH]; cbn [until_nul app repeat]; [reflexivity|].
+  destruct (N.eqb_spec b 0); [contradiction|]. now rewrite IH.
+Qed.
+
+Lemma name_image n : wf_name n -> until_nul (firstn 63 (fit 64 0%N n)) = n.
+Proof.
+  intros [Hl Hz]. rewrite fit_short by lia.
+  assert (E : firstn 63 (n ++ repeat 0%N (64 - List.length n)) = n ++ repeat 0%N (63 - List.length n)).
+  { rewrite firstn_app. rewrite firstn_all2 by lia. f_equal.
+    rewrite firstn_repeat'. f_equal. lia. }
+  rewrite E. replace (63 - List.length n) with (S (62 - List.length n)) by lia. now apply until_nul_name.
+Qed.
+
+Lemma key_image k : List.length k <= 64 -> sub (fit 64 0%N k) 0 (List.length k) = k.
+Proof.
+  intros Hl. rewrite fit_short by lia. rewrite sub_firstn. apply firstn_app_exact.
+Qed.
+
+Definition algo_attr (code : Z) (name key : bytes) : attr :=
+  mkattr code Py.XfrmAlgo [("alg_name", VArrPad name 64); ("alg_key_len", VInt (Z.mul (blen key) 8)); ("key", VArrPad key 64)].
+
+Lemma attr_algo_length code name key : List.length (attr_bytes (algo_attr code name key)) = 136.
+Proof. unfold attr_bytes. rewrite encode_struct_length by closed. closed. Qed.
+
+Ltac side ::=
+  lazymatch goal with
+  | |- lookup _ _ = _ => cbn [lf_path]; reflexivity
+  | |- _ \/ _ => first [left; closed | right; apply mask_order_free]
+  | |- _ = List.length (header_bytes _ _ _ _ _) + _ => rewrite header_bytes_length; reflexivity
+  | |- _ => closed
+  end.
+
+Lemma algo_attr_decoded code name key rest :
+  (0 <= code < 65536)%Z -> wf_name name -> List.length key <= 64 ->
+  let d := attr_bytes (algo_attr code name key) ++ rest in
+  kint K.nlattr "nla_len" d 0 = 136%N /\ kint K.nlattr "nla_type" d 0 = Z.to_N code /\
+  k_xfrm_algo (136, sub d NLA_HDRLEN (136 - NLA_HDRLEN)) = Some (intended_algo name key).
+Proof.
+  intros Hc Hn Hk d. subst d. unfold attr_bytes.
+  set (fs := attr_fields (algo_attr code name key)).
+  change (encode_struct (Py.Internal (at_type (algo_attr code name key))) fs ++ rest)
+    with ([] ++ encode_struct (Py.Internal Py.XfrmAlgo) fs ++ rest).
+  split; [|split].
+  - kf_ K.nlattr (Py.Internal Py.XfrmAlgo) "nla_len" "len". closed.
+  - kf_ K.nlattr (Py.Internal Py.XfrmAlgo) "nla_type" "code". cbn [lf_w]. apply trunc_small. pow_lia.
+  - unfold k_xfrm_algo. change NLA_HDRLEN with 4. change (136 - 4) with 132.
+    set (d := [] ++ encode_struct (Py.Internal Py.XfrmAlgo) fs ++ rest).
+    assert (Hd : 136 <= List.length d).
+    { subst d. cbn [app]. rewrite app_length, encode_struct_length by closed.
+      change (c_size (Py.Internal Py.XfrmAlgo)) with 136. lia. }
+    rewrite (kint_sub K.xfrm_algo "alg_key_len" d 4 132 (mkleaf "alg_key_len" 64 1 4 LE false false)) by closed.
+    rewrite (kraw_sub K.xfrm_algo "alg_name" d 4 132 (mkleaf "alg_name" 0 64 1 LE true false)) by closed.
+    subst d.
+    kf_ K.xfrm_algo (Py.Internal Py.XfrmAlgo) "alg_key_len" "data.alg_key_len".
+    kr_ K.xfrm_algo (Py.Internal Py.XfrmAlgo) "alg_name" "data.alg_name".
+    set (d := [] ++ encode_struct (Py.Internal Py.XfrmAlgo) fs ++ rest) in *.
+    cbn [lf_w lf_path]. subst fs.
+    cbn [lookup attr_fields algo_attr at_fields at_code at_type prefixed map join fst snd String.eqb Ascii.eqb Bool.eqb
+         String.append leaf_bytes leaf_len lf_n lf_w Nat.mul Nat.add].
+    assert (Hbits : trunc 4 (blen key * 8) = (8 * N.of_nat (List.length key))%N).
+    { rewrite trunc_small by (unfold blen; pow_lia). unfold blen. lia. }
+    rewrite Hbits.
+    assert (Hklen : N.to_nat ((8 * N.of_nat (List.length key) + 7) / 8) = List.length key).
+    { replace ((8 * N.of_nat (List.length key) + 7) / 8)%N with (N.of_nat (List.length key)); [lia|].
+      symmetry. apply (N.div_unique _ 8 _ 7); lia. }
+    rewrite Hklen.
+    rewrite sub_length by lia.
+    replace (Nat.leb (c_size K.xfrm_algo + List.length key) 132) with true
+      by (symmetry; apply Nat.leb_le; change (c_size K.xfrm_algo) with 68; lia).
+    cbn [andb Nat.eqb Nat.modulo Nat.divmod fst snd Nat.sub Nat.add NLA_HDRLEN].
+    change (Nat.eqb 136 (4 + 132)) with true. cbn [andb].
+    change (Nat.eqb (136 mod 4) 0) with true. cbn iota.
+    rewrite name_image by assumption.
+    change (lf_off (kleaf K.xfrm_algo "alg_key")) with 68.
+    rewrite sub_sub by lia. subst d.
+    rewrite (read_encoded (Py.Internal Py.XfrmAlgo) _ [] rest "data.key"
+               (mkleaf "data.key" 72 64 1 LE false false) 72 0 (List.length key)) by (first [closed | cbn; lia]).
+    cbn [lookup attr_fields algo_attr at_fields at_code at_type prefixed map join fst snd String.eqb Ascii.eqb Bool.eqb
+         String.append leaf_bytes leaf_len lf_n lf_w Nat.mul Nat.add lf_path].
+    rewrite key_image by assumption. reflexivity.
+Qed.
